@@ -212,7 +212,7 @@ impl Check for C05 {
     }
 
     fn cases(&self, tier: Tier) -> u64 {
-        tier.pick(60_000, 3_000_000)
+        tier.pick(60_000, 20_000_000)
     }
 
     fn run(&self, ctx: &Ctx, idx: u64, rec: &mut Recorder) {
